@@ -35,3 +35,58 @@ package core
 //@ ensures r1 == nil ==> forallk(k, r0, has(s, k))
 //@ loop 1 invariant forall(t, 0, $i, has(resp, $ks[t]) && res(1, s[$ks[t]].Clone()) == nil && resp[$ks[t]] == res(0, s[$ks[t]].Clone()))
 //@ loop 1 invariant forallk(k, resp, exists(t, 0, $i, $ks[t] == k))
+
+// ---- C16: deadliner -------------------------------------------------------------------------
+
+//@ pure deadlineFunc time.Date dutyGaterOptions.nowFunc
+//@ spec func ts(t time.Time) int
+//@ axiom timeOrder: all(a, time.Time, all(b, time.Time, (a.Before(b) <==> ts(a) < ts(b)) && (a.After(b) <==> ts(a) > ts(b))))
+//@ spec func canExpire(d Duty) bool = d.Type != DutyExit && d.Type != DutyBuilderRegistration
+//@ spec func durationOf(t DutyType, sd time.Duration, spe uint64) time.Duration =
+//@+   ite(t == DutyProposer || t == DutyRandao, sd/3,
+//@+   ite(t == DutySyncMessage || t == DutySyncContribution, sd,
+//@+   ite(t == DutyAttester || t == DutyAggregator, time.Duration(spe)*sd,
+//@+   ite(t == DutyPrepareAggregator || t == DutyPrepareSyncContribution, 2*time.Duration(spe)*sd, sd))))
+
+//@ func NewDutyDeadlineFunc$1
+//@ props C16
+//@ ensures r1 <==> canExpire(duty)
+//@ ensures r1 ==> r0 == genesisTime.Add(slotDuration * time.Duration(duty.Slot)).Add(durationOf(duty.Type, slotDuration, slotsPerEpoch) + slotDuration/marginFactor)
+//@ canary r1
+
+//@ func getCurrDuty
+//@ props C16
+//@ ensures forallk(d, duties, res(1, deadlineFunc(d)) ==> !res(0, deadlineFunc(d)).Before(r1))
+//@ ensures r1 == time.Date(9999, 1, 1, 0, 0, 0, 0, time.UTC) || (has(duties, r0) && res(1, deadlineFunc(r0)) && r1 == res(0, deadlineFunc(r0)))
+//@ ensures !r1.After(time.Date(9999, 1, 1, 0, 0, 0, 0, time.UTC))
+//@ ensures existsk(d, duties, res(1, deadlineFunc(d)) && res(0, deadlineFunc(d)).Before(time.Date(9999, 1, 1, 0, 0, 0, 0, time.UTC))) ==> has(duties, r0) && r1 == res(0, deadlineFunc(r0))
+//@ canary r1 == time.Date(9999, 1, 1, 0, 0, 0, 0, time.UTC)
+//@ loop 1 invariant forall(t, 0, $i, res(1, deadlineFunc($ks[t])) ==> !res(0, deadlineFunc($ks[t])).Before(currDeadline))
+//@ loop 1 invariant currDeadline == time.Date(9999, 1, 1, 0, 0, 0, 0, time.UTC) || (has(duties, currDuty) && res(1, deadlineFunc(currDuty)) && currDeadline == res(0, deadlineFunc(currDuty)))
+//@ loop 1 invariant !currDeadline.After(time.Date(9999, 1, 1, 0, 0, 0, 0, time.UTC))
+
+//@ func (d *deadliner) run
+//@ props C16
+//@ callreq send d.deadlineChan: a1 == currDuty
+//@ callreq send d.deadlineChan: forallk(x, duties, res(1, deadlineFunc(x)) ==> !res(0, deadlineFunc(x)).Before(currDeadline))
+//@ callreq send d.deadlineChan: currDeadline == time.Date(9999, 1, 1, 0, 0, 0, 0, time.UTC) || (has(duties, currDuty) && currDeadline == res(0, deadlineFunc(currDuty)))
+//@ callreq send input.success: (a1 == DeadlineExempt) == !canExpire
+//@ callreq send input.success: a1 == DeadlineExpired ==> canExpire
+//@ callreq send input.success: a1 == DeadlineExempt || a1 == DeadlineExpired || a1 == DeadlineScheduled
+//@ loop 1 invariant forallk(x, duties, res(1, deadlineFunc(x)) ==> !res(0, deadlineFunc(x)).Before(currDeadline))
+//@ loop 1 invariant forallk(x, duties, res(1, deadlineFunc(x)))
+//@ loop 1 invariant currDeadline == time.Date(9999, 1, 1, 0, 0, 0, 0, time.UTC) || (has(duties, currDuty) && currDeadline == res(0, deadlineFunc(currDuty)))
+//@ loop 1 invariant !currDeadline.After(time.Date(9999, 1, 1, 0, 0, 0, 0, time.UTC))
+
+// ---- C05 / C10: duty gater ------------------------------------------------------------------
+
+//@ func NewDutyGater$1
+//@ props C05 C10
+//@ mode bv
+//@ safe div
+//@ requires slotsPerEpoch > 0 && slotDuration > 0 && o.nowFunc().Sub(genesisTime) >= 0
+//@ requires 0 <= o.allowedFutureEpochs && o.allowedFutureEpochs < 1048576 && slotsPerEpoch < 1048576
+//@ ensures result ==> duty.Type > 0 && duty.Type < 14
+//@ ensures result ==> duty.Slot / slotsPerEpoch <= uint64(o.nowFunc().Sub(genesisTime) / slotDuration) / slotsPerEpoch + uint64(o.allowedFutureEpochs)
+//@ ensures duty.Type > 0 && duty.Type < 14 && duty.Slot / slotsPerEpoch <= uint64(o.nowFunc().Sub(genesisTime) / slotDuration) / slotsPerEpoch ==> result
+//@ canary !result
